@@ -439,8 +439,11 @@ def replay_alphabet(o, tree):
     which = (o.get("cfg") or {}).get("which", "directive")
     jobs = [{"kind": "asm", "sources": [(".rad50 /%s/\n" if which == "directive" else ".word ^R%s\n") % chr(c)]} for c in cps]
     res = driver.native(jobs, tree)
-    bad = [("U+%04X" % c, r["status"], r.get("code_hex") or r.get("exc")) for c, r in zip(cps, res) if r["status"] != "fail"]
-    return dict(jobs=jobs[:4], expected="every character outside the alphabet is refused with an error", observed=bad[:8], reproduced=bool(bad))
+    from spec import rad50 as spec
+    inside = lambda c: chr(c) in spec.ALPHABET or "a" <= chr(c) <= "z"  # noqa
+    bad = [("U+%04X" % c, r["status"], r.get("code_hex") or r.get("exc")) for c, r in zip(cps, res)
+           if (r["status"] != "fail" and not inside(c)) or (inside(c) and chr(c) != " " and r["status"] != "ok")]
+    return dict(jobs=jobs[:4], expected="every character outside the alphabet is refused with an error; every alphabet character is accepted", observed=bad[:8], reproduced=bool(bad))
 
 
 def replay(o, tree):
